@@ -21,20 +21,21 @@ def playback(scratch, crate, harness, timeout_s=900):
     env.pop("RUSTUP_TOOLCHAIN", None)
     # kani's in-place test generator resolves source paths relative to the workspace root
     cwd = scratch
+    pkg = [] if crate in (".", "") else ["-p", crate]
     try:
-        p = subprocess.run(["cargo", "kani", "-p", crate, "--harness", harness, "-Z", "stubbing", "-Z",
+        p = subprocess.run(["cargo", "kani"] + pkg + ["--harness", harness, "-Z", "stubbing", "-Z",
                             "concrete-playback", "--concrete-playback=inplace"], cwd=cwd, env=env,
                            stdout=subprocess.PIPE, stderr=subprocess.STDOUT, text=True, timeout=timeout_s)
         gen = p.stdout
         m = re.search(r"- (kani_concrete_playback_\w+)", gen)
         test = m.group(1) if m else "kani_concrete_playback"
-        p2 = subprocess.run(["cargo", "kani", "playback", "-p", crate, "-Z", "concrete-playback", "--", test],
+        p2 = subprocess.run(["cargo", "kani", "playback"] + pkg + ["-Z", "concrete-playback", "--", test],
                             cwd=cwd, env=env, stdout=subprocess.PIPE, stderr=subprocess.STDOUT, text=True,
                             timeout=timeout_s)
         out = p2.stdout
         reproduced = ("test result: FAILED" in out) and ("1 failed" in out or "panicked at" in out)
         vals = []
-        for root, _d, files in os.walk(os.path.join(scratch, crate, "src")):
+        for root, _d, files in os.walk(os.path.join(scratch, crate, "src") if pkg else os.path.join(scratch, "src")):
             for fn_ in files:
                 txt = open(os.path.join(root, fn_), errors="replace").read()
                 k = txt.find("fn " + test)
